@@ -38,10 +38,54 @@ pub fn signatures(w: &World, b: Bind) -> Vec<String> {
     }
 }
 
+/// the shown signature and the text behind it: the content of a leading fenced code block (any
+/// language tag), or - without a fence - the first paragraph
 fn code_block(markdown: &str) -> Option<(&str, &str)> {
-    let rest = markdown.strip_prefix("```spl\n")?;
-    let end = rest.find("\n```")?;
-    Some((&rest[..end], &rest[end + 4..]))
+    if let Some(rest) = markdown.strip_prefix("```") {
+        let nl = rest.find('\n')?;
+        let rest = &rest[nl + 1..];
+        let end = rest.find("\n```")?;
+        return Some((&rest[..end], &rest[end + 4..]));
+    }
+    match markdown.find("\n\n") {
+        Some(end) => Some((&markdown[..end], &markdown[end..])),
+        None if !markdown.trim().is_empty() => Some((markdown, "")),
+        None => None,
+    }
+}
+
+fn lexemes(text: &str) -> Vec<String> {
+    splgen::reflex::lex(text).into_iter().filter(|t| t.kind != splgen::reflex::RKind::Eof).map(|t| text[t.range.clone()].to_string()).collect()
+}
+
+/// Does `shown` present the signature `canonical` (one of the renderings of `signatures`)?
+/// Compared as token sequences: the canonical tokens must occur contiguously in what is shown, so
+/// that decoration the statement does not fix (a `var` / `proc` / `type x =` prefix, a trailing
+/// `;`, a kind marker in parentheses, other spacing) is accepted, while a wrong name, a missing or
+/// spurious `ref`, a wrong or unresolved type or a wrong parameter list is not.
+fn shows_signature(shown: &str, canonical: &str) -> bool {
+    let have = lexemes(shown);
+    let mut want = lexemes(canonical);
+    // the leading keyword of a canonical rendering is decoration
+    if matches!(want.first().map(|s| s.as_str()), Some("proc") | Some("var") | Some("type")) && want.len() > 1 && want[1] != "=" {
+        want.remove(0);
+    }
+    if want.is_empty() || have.len() < want.len() {
+        return false;
+    }
+    let starts_with_ref = want[0] == "ref";
+    (0..=have.len() - want.len()).any(|i| {
+        have[i..i + want.len()] == want[..]
+            // a reference marker that is not declared must not be shown in front of the name
+            && (starts_with_ref || i == 0 || have[i - 1] != "ref")
+            // a type is not followed by a further `of` / `[` (the shown type would be another one)
+            && have.get(i + want.len()).map_or(true, |n| n != "of" && n != "[")
+            // a shown type must not be the element type of a larger one
+            && (i == 0 || have[i - 1] != "of")
+            // and what precedes is decoration only: no `:` / `=` (the match would be the type part
+            // of another entity's signature)
+            && !have[..i].iter().any(|t| t == ":" || t == "=")
+    })
 }
 
 pub struct HoverCheck;
@@ -98,15 +142,20 @@ impl Check for HoverCheck {
                 continue;
             };
             let accepted = signatures(&w, b);
-            if !accepted.iter().any(|a| a == sig_shown.trim()) {
+            if !accepted.iter().any(|a| shows_signature(sig_shown, a)) {
                 let mut sig = sign("wrong-hover-signature");
                 if ambiguous {
+                    // the recorded finding only if what is shown presents the baseline's signature
+                    // (token-wise, decoration accepted as above)
                     let m = "textDocument/hover";
-                    let shown = |v: &Value| {
-                        let md = v["contents"]["value"].as_str().or_else(|| v["contents"].as_str()).unwrap_or("");
-                        json!(code_block(md).map(|c| c.0.trim().to_string()))
+                    let agrees = match crate::pinned_lsp::answer(m, &w.uri, &text, crate::pinned_lsp::position_params(m, &w.uri, p.line, p.character)) {
+                        Ok(v) => {
+                            let md = v["contents"]["value"].as_str().or_else(|| v["contents"].as_str()).unwrap_or("").to_string();
+                            code_block(&md).map_or(false, |c| shows_signature(sig_shown, c.0.trim()))
+                        }
+                        Err(_) => false,
                     };
-                    sig = crate::pinned_lsp::triage(sig, crate::pinned_lsp::baseline_agrees_on(m, &w.uri, &text, crate::pinned_lsp::position_params(m, &w.uri, p.line, p.character), &serde_json::to_value(&h).unwrap_or(Value::Null), shown));
+                    sig = crate::pinned_lsp::triage(sig, agrees);
                 }
                 r.fail(
                     sig,
@@ -238,7 +287,7 @@ impl Check for SignatureCheck {
                     continue;
                 }
                 let sg = &help.signatures[0];
-                if sg.label != want_label {
+                if !shows_signature(&sg.label, &want_label) {
                     r.fail(sign("wrong-signature-label"), format!("signature help shows {:?}, the callee is declared as {:?}", sg.label, want_label), detail());
                     continue;
                 }
@@ -252,7 +301,7 @@ impl Check for SignatureCheck {
                         ParameterLabel::LabelOffsets([a, b2]) => sg.label.chars().skip(*a as usize).take((*b2 - *a) as usize).collect(),
                     })
                     .collect();
-                if got_params != want_params {
+                if got_params.len() != want_params.len() || !got_params.iter().zip(&want_params).all(|(g, w0)| shows_signature(g, w0)) {
                     r.fail(sign("wrong-parameter-entries"), format!("parameter entries {:?}, declared parameters {:?}", got_params, want_params), detail());
                     continue;
                 }
@@ -308,7 +357,7 @@ pub fn run(ctx: &Ctx) -> i32 {
     finish(
         ctx,
         parts,
-        "well-typed programs in any layout with documentation comments; hover on up to 14 identifier occurrences per program (cursor on the first, an interior or the last character): range = the identifier, spl code block = the signature of the bound declaration rendered from the generator's model (proc name(p: T, ref q: T) with fully resolved types; [ref ]name: type; resolved type of a type), followed by every documentation line in order; signature help at every token boundary and random offsets between `(` and `)` of up to 8 calls per program (any nesting and spacing, also inside comments within the list): one signature with the callee's declared label, one entry per parameter, active parameter = commas between `(` and the cursor; non-trivial = declaration documented or in another declaration (hover), argument index >= 1 / nesting >= 2 / callee declared elsewhere (signature help); evaluations = requests",
+        "well-typed programs in any layout with documentation comments; hover on up to 14 identifier occurrences per program (cursor on the first, an interior or the last character): range = the identifier, the leading code block (or first paragraph) shows - compared as token sequences, decoration such as a `var`/`proc`/`type x =` prefix accepted - the signature of the bound declaration rendered from the generator's model (proc name(p: T, ref q: T) with fully resolved types; [ref ]name: type; resolved type of a type), followed by every documentation line in order; signature help at every token boundary and random offsets between `(` and `)` of up to 8 calls per program (any nesting and spacing, also inside comments within the list): one signature with the callee's declared label, one entry per parameter, active parameter = commas between `(` and the cursor; non-trivial = declaration documented or in another declaration (hover), argument index >= 1 / nesting >= 2 / callee declared elsewhere (signature help); evaluations = requests",
         &[
             "a type may be shown as its resolved type alone or with a `type name = ` prefix (the statement does not fix the layout)",
             "for parameterless callees an absent and a zero active parameter are both accepted",
